@@ -115,6 +115,10 @@ def arc3SideTest (r1 r2 r3 : Vec K) : K := dot (cross r1 r2) (cross r1 r3)
 
 end arc3
 
+/-- `cross(arm_1, arm_2)` of `ArcEdgeBase.is_valid`: the arms from the third point to the two end vertices
+    (twice the area vector of the triangle; its norm is compared with `TOL` to drop collinear "arcs") -/
+def validCross {K : Type} [Sub K] [Mul K] (p1 p2 M : Vec K) : Vec K := cross (sub p1 M) (sub p2 M)
+
 /-- `functions.polyline_length` with the segment lengths supplied as witnesses -/
 def polyLen {K : Type} [Add K] [OfNat K 0] (ds : List K) : K := ds.foldr (· + ·) 0
 
@@ -130,6 +134,13 @@ def witOk (w x eps : Rat) : Bool := decide (0 ≤ w) && decide (absR (w * w - x)
 
 /-- `constants.TOL` as read from the source at this run -/
 def tol : Rat := mkRat CBV.Gen.c08Tol.1 CBV.Gen.c08Tol.2
+
+/-- `Edge.is_valid` for a non-line edge: `norm(vertex_1 - vertex_2) < TOL` → not valid (compared as squares, exactly) -/
+def edgeValid (p1 p2 : V) : Bool := !(decide (nsq (sub p1 p2) < tol * tol))
+
+/-- `ArcEdgeBase.is_valid`: a valid edge whose third point is not collinear with its ends,
+    `abs(norm(cross(arm_1, arm_2))) > TOL` (compared as squares, exactly) -/
+def arcValid (p1 p2 M : V) : Bool := edgeValid p1 p2 && decide (nsq (validCross p1 p2 M) > tol * tol)
 
 /-- float image of `2*np.pi` (the bound of the guard of `arc_from_theta`) -/
 def twoPiF : Rat := mkRat 884279719003555 140737488355328
@@ -304,6 +315,14 @@ def handleArc3 (args : List String) : Option String :=
       | some o => some s!"ok {showVec o.centre} {if o.exterior then 1 else 0} {o.cos.toBits} {o.length.toBits}"
   | _ => none
 
+/-- `c08.valid p1 p2 M` → `1` | `0` (ArcEdgeBase.is_valid for the third point `M`) -/
+def handleValid (args : List String) : Option String :=
+  match args with
+  | [p1, p2, M] => do
+      let p1 ← parseVec? p1; let p2 ← parseVec? p2; let M ← parseVec? M
+      some (if arcValid p1 p2 M then "1" else "0")
+  | _ => none
+
 /-- `c08.vmid p1 p2 C n g M eps` → `ok` | `fail <clause>` (validator on the implementation's point) -/
 def handleVmid (args : List String) : Option String :=
   match args with
@@ -336,6 +355,7 @@ def handle (op : String) (args : List String) : Option String :=
   | "c08.origin" => handleOrigin args
   | "c08.arc3" => handleArc3 args
   | "c08.vmid" => handleVmid args
+  | "c08.valid" => handleValid args
   | "c08.poly" => handlePoly args
   | _ => none
 
